@@ -207,7 +207,22 @@ def run(chk, prog):
         gpos = [pol for g_, pol in sc_.guards if isinstance(g_, dict) and "_filling_set" in A.show(g_)]
         chk.check(gpos == [True], "R3", A.loc(fnn, {"line": sc_.line}),
                   "the multiplication runs only for filling_set[n] > 0: an empty bucket (0/0 after it was zeroed once) is never rescaled", "normalize:scaling-unguarded")
-        chk.check(len(zes) == 1, "R3", fnn.where, "cells of an empty bucket are set to zero (%d zeroing stores)" % len(zes), "normalize:zero")
+        # the zeroing may be spelled as one bulk fill of the bunch's contiguous block: fill_n(_data[n].origin(), nx*ny, 0)
+        bulk_zero = []
+        for c_ in sn.calls:
+            if c_.callee in ("std::fill_n", "std::fill") and len(c_.args) == 3 and c_.args[0] is not None and c_.args[2] == 0:
+                dst_ = str(c_.args[0]).replace(" ", "")
+                ln_ = c_.args[1]
+                full_len = ln_ is not None and (sp.expand(S.norm(ln_) - N * N) == 0 or str(ln_) in ("PhaseSpace__nmeshcells", "_nmeshcells", "PhaseSpace_nxy", "nxy"))
+                if dst_ in ("origin(_data[%s])" % nS, "data(_data[%s])" % nS) and full_len and len(c_.loops) == 1 and c_.loops[0].sym == nS:
+                    bulk_zero.append(c_)
+        if bulk_zero and not zes:
+            gneg_b = [pol for g_, pol in bulk_zero[0].guards if isinstance(g_, dict) and "_filling_set" in A.show(g_)]
+            chk.check(len(bulk_zero) == 1 and gpos == [True] and gneg_b == [False], "R3", A.loc(fnn, {"line": bulk_zero[0].line}),
+                      "cells of an empty bucket are set to zero by one fill of the bunch's block (nx*ny cells from _data[n].origin()), under the complement of the scaling guard",
+                      "normalize:zero")
+        else:
+            chk.check(len(zes) == 1, "R3", fnn.where, "cells of an empty bucket are set to zero (%d zeroing stores)" % len(zes), "normalize:zero")
         for a in [sc_] + zes[:1]:
             full = len(a.loops) == 3 and a.idx == tuple(L.sym for L in a.loops) and all(L.lo == 0 and sp.expand(S.norm(L.hi) - (B if L.name == "n" else N)) == 0 for L in a.loops)
             chk.check(full, "R3", A.loc(fnn, {"line": a.line}), "the store covers every cell [n][x][y] of the bunch", "normalize:range:%s" % a.op)
